@@ -709,7 +709,7 @@ fn exec_with(args: &Args) -> impl Fn(&Case, usize, &mut Out) -> bool + '_ {
 /// {-1.5 .. 1.5} and NaN/inf operands, every delay time 0..max+1 (integral and fractional),
 /// mem, scalar and tuple `self`, captured and assigned upvalues, function values with
 /// state, array indexing inside / outside the bounds. (name, samples, source)
-const TABLES: [(&str, usize, &str); 9] = [
+const TABLES: [(&str, usize, &str); 10] = [
     (
         "operators",
         49,
@@ -754,6 +754,14 @@ const TABLES: [(&str, usize, &str); 9] = [
         "array_append_aliasing",
         6,
         "let ga = [1.0, 2.0]\nfn dsp(){\n  let a = [10.0, 20.0, 30.0]\n  let b = append(a, now)\n  let c = append(b, 5.0)\n  let g2 = append(ga, now)\n  let g3 = append(ga, 7.0)\n  (len(a), len(b), len(c), b[3], c[3], c[4], len(ga), len(g2), g2[2], g3[2], len(g3))\n}\n",
+    ),
+    (
+        // lambdas that keep state (self / mem / delay / a stateful callee) with and without captured
+        // variables, called in the function that makes them, once and twice, unconditionally and only on
+        // some samples, with stateful code of the caller before and after the call
+        "stateful_lambdas",
+        12,
+        "fn cnt(){ self + 1 }\nfn dbl(f:(float)->float, x){ f(x) * 2.0 }\nfn dsp(){\n  let k = 3.0\n  let a0 = cnt()\n  let acc = |x| { self + x }\n  let lag = |x| { mem(x) + delay(3, x, 2) }\n  let viacnt = |x| { cnt() * x }\n  let capt = |x| { self + x + k }\n  let r1 = acc(1.0)\n  let r2 = acc(10.0)\n  let r3 = lag(now)\n  let r4 = viacnt(2.0)\n  let r5 = capt(1.0)\n  let r6 = if (now % 3) { dbl(acc, now) } else { 0.5 }\n  let a1 = cnt()\n  let r7 = if (now % 2) { capt(100.0) } else { acc(1000.0) }\n  let a2 = cnt()\n  (a0, r1, r2, r3, r4, r5, r6, a1, r7, a2, mem(a2))\n}\n",
     ),
     (
         "arrays",
